@@ -911,6 +911,214 @@ theorem finish_refused (pre : List Step) (s : Step) (post : List Step) (h : AllE
     have hr : AllEmit r := fun y hy => h y (by simp [hy])
     simp [exchanged, exchangeEnd, hb, ih hr]
 
+/-! ### socket family: a producer session iterated to its end is `Engine.Pipe.iterate` -/
+section PipeSession
+open PipeM Engine.Aux
+variable (env : Env) (p : Prog)
+
+theorem coerce_tick (env : Env) : coerceInput env [] tickBatch = .ok tickBatch := by
+  simp [coerceInput, tickBatch, IBatch.schema]
+
+theorem wrongSchema_tick (s : St) (h : s.wschema = none ∨ s.wschema = some []) : wrongSchema s tickBatch = false := by
+  unfold wrongSchema
+  rcases h with h | h <;> simp [h, tickBatch, IBatch.schema]
+
+theorem stepAt_of_drop (k : Nat) (st : Step) (r : List Step) (h : p.steps.drop k = st :: r) : p.stepAt k = st := by
+  have : p.steps[k]? = some st := by
+    have := List.getElem?_drop (xs := p.steps) (i := k) (j := 0)
+    rw [h] at this
+    simpa using this.symm
+  simp [Prog.stepAt, this]
+
+theorem stepAt_past (k : Nat) (h : p.steps.drop k = []) (hd : p.decl = []) : p.stepAt k = ⟨[], .finish, []⟩ := by
+  have : p.steps[k]? = none := by
+    rw [List.getElem?_eq_none_iff]
+    exact List.drop_eq_nil_iff.1 h
+  simp [Prog.stepAt, this, Prog.isProducer, hd]
+
+/-- the served state after one `process` call -/
+def served (s : St) (sch : Schema) (live : Bool) : St :=
+  { s with k := s.k + 1, slog := s.slog ++ [.process s.k sch], live := live }
+
+theorem serveBatch_ok (s : St) (b b' : IBatch) (hl : s.live = true) (hb : coerceInput env p.decl b = .ok b') :
+    serveBatch env p s b =
+      (match runStep p s.k with
+       | .cont items => (served s b'.schema true, items)
+       | .done items => (served s b'.schema false, items)
+       | .fail items => (served s b'.schema false, items)) := by
+  simp only [serveBatch, hl, hb, served]
+  cases runStep p s.k <;> simp
+
+theorem serveBatch_dead (s : St) (b : IBatch) (hl : s.live = false) : serveBatch env p s b = (s, []) := by
+  simp [serveBatch, hl]
+
+theorem recv_data (s2 : St) (c a post : List Log) (b : Batch) (hu : s2.unread = logItems c) :
+    recv s2 (logItems a ++ [Item.data b] ++ logItems post) =
+      ({ s2 with unread := logItems post }, Sem.lg (c ++ a) ++ [.data b], .data) := by
+  unfold recv
+  rw [hu, regroup, read_logs_data]
+
+theorem recv_eos (s2 : St) (c a : List Log) (hu : s2.unread = logItems c) :
+    recv s2 (logItems a) = ({ s2 with unread := [] }, Sem.lg (c ++ a), .eos) := by
+  unfold recv
+  rw [hu, ← logItems_append, read_logs_only]
+
+theorem recv_err (s2 : St) (c : List Log) (e : Exn) (hu : s2.unread = logItems c) :
+    recv s2 [Item.err e] =
+      ((close { s2 with unread := [] }).1, Sem.lg c ++ [errEv e] ++ (close { s2 with unread := [] }).2, .error) := by
+  unfold recv
+  rw [hu, read_logs_err]
+
+
+/-- a session in the state the producer iteration keeps it in -/
+structure Ready (s : St) (c : List Log) : Prop where
+  closed : s.closed = false
+  gen : s.genDead = false
+  ws : s.wschema = none ∨ s.wschema = some []
+  unread : s.unread = logItems c
+
+theorem sendRecv_tick (s : St) (c : List Log) (h : Ready s c) (op : String) :
+    sendRecv env p op s tickBatch =
+      recv (serveBatch env p { s with wschema := some [], writes := s.writes + 1 } tickBatch).1
+           (serveBatch env p { s with wschema := some [], writes := s.writes + 1 } tickBatch).2 := by
+  unfold sendRecv
+  rw [if_neg (by simp [h.closed]), if_neg (by simp [wrongSchema_tick s h.ws])]
+  rfl
+
+theorem nextN_succ (n : Nat) (s : St) :
+    nextN env p (n + 1) s =
+      match next env p s with
+      | (s', evs, true) => ((nextN env p n s').1, evs ++ (nextN env p n s').2)
+      | (s', evs, false) => (s', evs) := by
+  simp only [nextN]
+  split <;> simp_all
+
+/-- state after the server ran `process` for a tick of a ready session -/
+def ticked (s : St) (live : Bool) (unread : List Item) : St :=
+  { s with wschema := some [], writes := s.writes + 1, k := s.k + 1, slog := s.slog ++ [.process s.k []],
+           live := live, unread := unread }
+
+theorem tick_run (s : St) (c : List Log) (h : Ready s c) (hl : s.live = true) (hd : p.decl = []) :
+    sendRecv env p "tick" s tickBatch =
+      (match runStep p s.k with
+       | .cont items => recv (ticked s true s.unread) items
+       | .done items => recv (ticked s false s.unread) items
+       | .fail items => recv (ticked s false s.unread) items) := by
+  have hct : coerceInput env p.decl tickBatch = .ok tickBatch := by rw [hd]; exact coerce_tick env
+  rw [sendRecv_tick env p s c h,
+    serveBatch_ok env p { s with wschema := some [], writes := s.writes + 1 } tickBatch tickBatch hl hct]
+  cases runStep p s.k <;> rfl
+
+theorem next_emit (s : St) (c : List Log) (h : Ready s c) (hl : s.live = true) (hd : p.decl = []) (b : Batch)
+    (hact : (p.stepAt s.k).act = .emit b) :
+    next env p s = (ticked s true (logItems (p.stepAt s.k).post), Sem.lg (c ++ (p.stepAt s.k).logs) ++ [.data b], true) := by
+  have hp : p.isProducer = true := by simp [Prog.isProducer, hd]
+  have hrs : runStep p s.k = .cont (logItems (p.stepAt s.k).logs ++ [Item.data b] ++ logItems (p.stepAt s.k).post) := by
+    simp [runStep, hp, processStep, hact]
+  simp only [next, h.gen, Bool.false_eq_true, if_false, tick]
+  rw [tick_run env p s c h hl hd]
+  simp only [hrs]
+  rw [recv_data _ c _ _ b (by simp [ticked, h.unread])]
+  rfl
+
+theorem next_emitFinish (s : St) (c : List Log) (h : Ready s c) (hl : s.live = true) (hd : p.decl = []) (b : Batch)
+    (hact : (p.stepAt s.k).act = .emitFinish b) :
+    next env p s = (ticked s false (logItems (p.stepAt s.k).post), Sem.lg (c ++ (p.stepAt s.k).logs) ++ [.data b], true) := by
+  have hp : p.isProducer = true := by simp [Prog.isProducer, hd]
+  have hrs : runStep p s.k = .done (logItems (p.stepAt s.k).logs ++ [Item.data b] ++ logItems (p.stepAt s.k).post) := by
+    simp [runStep, hp, processStep, hact]
+  simp only [next, h.gen, Bool.false_eq_true, if_false, tick]
+  rw [tick_run env p s c h hl hd]
+  simp only [hrs]
+  rw [recv_data _ c _ _ b (by simp [ticked, h.unread])]
+  rfl
+
+theorem next_finish (s : St) (c : List Log) (h : Ready s c) (hl : s.live = true) (hd : p.decl = [])
+    (hact : (p.stepAt s.k).act = .finish) :
+    (next env p s).2 = (Sem.lg (c ++ ((p.stepAt s.k).logs ++ (p.stepAt s.k).post)) ++ [.fin], false) := by
+  have hp : p.isProducer = true := by simp [Prog.isProducer, hd]
+  have hrs : runStep p s.k = .done (logItems ((p.stepAt s.k).logs ++ (p.stepAt s.k).post)) := by
+    simp [runStep, hp, processStep, hact, logItems_append]
+  simp only [next, h.gen, Bool.false_eq_true, if_false, tick]
+  rw [tick_run env p s c h hl hd]
+  simp only [hrs]
+  rw [recv_eos _ c _ (by simp [ticked, h.unread])]
+  simp [close, ticked, h.closed, drainAll]
+
+theorem next_fail (s : St) (c : List Log) (h : Ready s c) (hl : s.live = true) (hd : p.decl = []) (e : Exn)
+    (hrs : runStep p s.k = .fail [.err e]) :
+    (next env p s).2 = (Sem.lg c ++ [errEv e], false) := by
+  simp only [next, h.gen, Bool.false_eq_true, if_false, tick]
+  rw [tick_run env p s c h hl hd]
+  simp only [hrs]
+  rw [recv_err _ c e (by simp [ticked, h.unread])]
+  simp [close, ticked, h.closed, drainAll]
+
+/-- the server has left its loop (after emit+finish): the next tick only reads what is left and meets EOS -/
+theorem next_dead (s : St) (c : List Log) (h : Ready s c) (hl : s.live = false) :
+    (next env p s).2 = (Sem.lg c ++ [.fin], false) := by
+  simp only [next, h.gen, Bool.false_eq_true, if_false, tick]
+  rw [sendRecv_tick env p s c h, serveBatch_dead env p _ _ (by simpa using hl)]
+  rw [show ([] : List Item) = logItems [] from rfl, recv_eos _ c [] (by simp [h.unread])]
+  simp [close, h.closed, drainAll]
+
+theorem regroup' (c a p : List Log) (b : Batch) :
+    logItems c ++ (logItems a ++ Item.data b :: logItems p) = logItems (c ++ a) ++ (Item.data b :: logItems p) := by
+  simp [logItems]
+
+theorem ready_ticked (s : St) (c : List Log) (h : Ready s c) (live : Bool) (post : List Log) :
+    Ready (ticked s live (logItems post)) post :=
+  ⟨by simp [ticked, h.closed], by simp [ticked, h.gen], by simp [ticked], by simp [ticked]⟩
+
+theorem nextN_iterate (hd : p.decl = []) : ∀ (rest : List Step) (s : St) (c : List Log), Ready s c → s.live = true →
+    p.steps.drop s.k = rest → (nextN env p (rest.length + 1) s).2 = Pipe.iterate (logItems c) rest := by
+  have hp : p.isProducer = true := by simp [Prog.isProducer, hd]
+  intro rest
+  induction rest with
+  | nil =>
+    intro s c h hl hdrop
+    have hst := stepAt_past p s.k hdrop hd
+    have hn := next_finish env p s c h hl hd (by rw [hst])
+    rw [List.length_nil, nextN_succ]
+    rw [show next env p s = ((next env p s).1, (next env p s).2) from rfl, hn]
+    simp [hst, Pipe.iterate, read_logs_only]
+  | cons st r ih =>
+    intro s c h hl hdrop
+    have hst := stepAt_of_drop p s.k st r hdrop
+    have hr : p.steps.drop (s.k + 1) = r := drop_succ_of_drop _ _ _ _ hdrop
+    rw [List.length_cons, nextN_succ]
+    cases hact : st.act with
+    | emit b =>
+      rw [next_emit env p s c h hl hd b (by rw [hst]; exact hact)]
+      simp only [hst]
+      rw [ih _ st.post (ready_ticked s c h true st.post) (by simp [ticked]) (by simpa [ticked] using hr)]
+      simp only [Pipe.iterate, processStep, hact]
+      rw [regroup, read_logs_data]
+    | finish =>
+      have hn := next_finish env p s c h hl hd (by rw [hst]; exact hact)
+      rw [show next env p s = ((next env p s).1, (next env p s).2) from rfl, hn]
+      simp [hst, Pipe.iterate, processStep, hact, ← logItems_append, read_logs_only, lg_append]
+    | emitFinish b =>
+      rw [next_emitFinish env p s c h hl hd b (by rw [hst]; exact hact)]
+      simp only [hst]
+      rw [nextN_succ]
+      have hn := next_dead env p _ st.post (ready_ticked s c h false st.post) (by simp [ticked])
+      rw [show next env p (ticked s false (logItems st.post)) = ((next env p (ticked s false (logItems st.post))).1,
+        (next env p (ticked s false (logItems st.post))).2) from rfl, hn]
+      simp only [Pipe.iterate, processStep, hact]
+      rw [regroup, read_logs_data]
+      simp [read_logs_only]
+    | raise e =>
+      have hn := next_fail env p s c h hl hd e (by simp [runStep, hp, hst, processStep, hact])
+      rw [show next env p s = ((next env p s).1, (next env p s).2) from rfl, hn]
+      simp [Pipe.iterate, processStep, hact, read_logs_err]
+    | nothing =>
+      have hn := next_fail env p s c h hl hd noDataExn (by simp [runStep, hp, hst, processStep, hact])
+      rw [show next env p s = ((next env p s).1, (next env p s).2) from rfl, hn]
+      simp [Pipe.iterate, processStep, hact, read_logs_err]
+
+end PipeSession
+
 end Aux
 
 open Aux
@@ -1026,6 +1234,39 @@ theorem C10_exchange (il : List Log) (steps : List Step) :
   · have := congrArg Obs.rest hh; simp only [obs] at this; rw [this]; exact exchange_rest steps
   · intro pre s post he ha hs
     rw [he]; exact finish_refused pre s post ha hs
+
+/-- Socket family, the op machine: opening a producer and calling `next` until the iterator stops IS
+`Engine.Pipe.iterate` (event for event), hence delivers exactly the emitted batches up to the finish and ends there. -/
+theorem C10_producer_pipe_session (env : Env) (m : Method) (hd : m.prog.decl = []) (hi : m.init = none) :
+    ∃ s0, (PipeM.openS m).2 = some s0 ∧
+      (PipeM.nextN env m.prog (m.prog.steps.length + 1) s0).2 = Pipe.iterate s0.unread m.prog.steps ∧
+      datasOf ((PipeM.openS m).1 ++ (PipeM.nextN env m.prog (m.prog.steps.length + 1) s0).2) = emitted m.prog.steps ∧
+      restOf (PipeM.nextN env m.prog (m.prog.steps.length + 1) s0).2 = terminal m.prog.steps := by
+  cases hh : m.header with
+  | none =>
+    have hopen : PipeM.openS m = ([], some (PipeM.st0 (logItems m.initLogs) true)) := by simp [PipeM.openS, hh, hi]
+    have key := nextN_iterate env m.prog hd m.prog.steps (PipeM.st0 (logItems m.initLogs) true) m.initLogs
+      ⟨rfl, rfl, Or.inl rfl, rfl⟩ rfl (by simp [PipeM.st0])
+    have c10 := C10_producer (fun _ => true) m.initLogs m.prog.steps
+    refine ⟨_, by rw [hopen], ?_, ?_, ?_⟩
+    · rw [key]; rfl
+    · rw [hopen, key]; simpa using c10.1
+    · rw [key]; exact c10.2.1
+  | some h =>
+    have hopen : PipeM.openS m = (lgEv m.initLogs ++ [.header h], some (PipeM.st0 [] true)) := by
+      simp [PipeM.openS, hh, hi]
+    have key := nextN_iterate env m.prog hd m.prog.steps (PipeM.st0 [] true) []
+      ⟨rfl, rfl, Or.inl rfl, rfl⟩ rfl (by simp [PipeM.st0])
+    have c10 := C10_producer (fun _ => true) [] m.prog.steps
+    refine ⟨_, by rw [hopen], ?_, ?_, ?_⟩
+    · rw [key]; rfl
+    · rw [hopen, key]
+      have hl : datasOf (lgEv m.initLogs ++ [Ev.header h]) = [] := by
+        rw [Engine.Aux.datasOf_append]
+        have : datasOf (lgEv m.initLogs) = [] := datasOf_lg m.initLogs
+        rw [this]; rfl
+      rw [Engine.Aux.datasOf_append, hl]; exact c10.1
+    · rw [key]; exact c10.2.1
 
 /-! ## Header -/
 
